@@ -599,7 +599,7 @@ impl Check for C05 {
         case_strategy(lim)
     }
     fn num_cases(&self, tier: Tier) -> u64 {
-        tier.pick(12_000, 300_000)
+        tier.pick(12_000, 100_000)
     }
     fn enumerate(&self, tier: Tier, shard: usize, nshards: usize, f: &mut dyn FnMut(Case) -> bool) {
         // every root of the wire-polynomial domain for a ladder of call counts
